@@ -608,7 +608,8 @@ hwloc__osdev_type_snprintf_normal(char * __hwloc_restrict string, size_t size,
   tmp += res;
   tmplen -= res;
 
-  while (ostype) {
+  if (ostype) {
+    /* a single pass is enough, and unknown bits must not loop forever */
     unsigned i;
     for(i=0; i<_HWLOC_OSDEV_TYPE_NAMES_NR; i++) {
       if (ostype & names[i].type) {
